@@ -89,6 +89,8 @@ def generate(run_seed, index, tier):
         nev = 2 if heavy else r.randint(2, 4)
         for j in range(nev):
             o = {'op': 'call', 'id': k}
+            if j > 0 and r.random() < 0.25:
+                o['seed_type'] = r.choice(['np.int64', 'np.uint64'])
             if fault_rate and fr.random() < fault_rate and not (heavy and reg.R[spec['fn']]['solver'] and spec['fn'] != 'CHABoundaryBagging.solve'):
                 o['fault'] = {'kind': fr.choice(fault_kinds), 'frac': round(fr.random(), 4)}
             ops.append(o)
@@ -176,15 +178,15 @@ class _SolverFail:
         return False
 
 
-def outcome_of(nq, spec, seeded, ctx, clock=None):
+def outcome_of(nq, spec, seeded, ctx, clock=None, seed_type='int'):
     """-> (kind, digest, value): kind 'ok' with the canonical digest of the value, or 'exc' with the exception class (solver-backed APIs only)"""
     e = reg.R[spec['fn']]
     try:
         if spec.get('solver_fail'):
             with _SolverFail(int(spec['solver_fail'])) as sf:
-                val = reg.evaluate(nq, spec, seeded, ctx)
+                val = reg.evaluate(nq, spec, seeded, ctx, seed_type)
         else:
-            val = reg.evaluate(nq, spec, seeded, ctx)
+            val = reg.evaluate(nq, spec, seeded, ctx, seed_type)
     except Exception as ex:
         if e['solver']:
             return 'exc', type(ex).__name__, None
@@ -255,8 +257,10 @@ class Sim:
             script = [cr.choice([0.25, 3.0, 5.0, -100.0, 1e9, 0.0, 17.5]) for _ in range(400)]
             clock.script = list(script)
 
+        seed_type = op.get('seed_type', 'int')
+
         def run():
-            return outcome_of(self.nq, spec, True, self.ctx)
+            return outcome_of(self.nq, spec, True, self.ctx, seed_type=seed_type)
 
         def guarded(fn):
             try:
